@@ -42,6 +42,10 @@ func init() {
 					Quick:    {Depth: 4, Budget: 60 * time.Second, ReplayEvery: 16},
 					Thorough: {Depth: 7, Budget: 8 * time.Minute, ReplayEvery: 32, MaxStates: 400000},
 				}},
+				{S: withAnnotate(c03DecidedThenGov(), annotateHalt), Opt: map[Tier]Options{
+					Quick:    {Depth: 3, Budget: 60 * time.Second, ReplayEvery: 16},
+					Thorough: {Depth: 5, Budget: 5 * time.Minute, ReplayEvery: 32, MaxStates: 300000},
+				}},
 				{S: withAnnotate(unionScenario(unionOpts{name: "union-atomic", multi: true}), annotateHalt), Opt: map[Tier]Options{
 					Quick:    {Depth: 3, Budget: 100 * time.Second, ReplayEvery: 16},
 					Thorough: {Depth: 5, Budget: 8 * time.Minute, ReplayEvery: 32, MaxStates: 500000},
